@@ -295,6 +295,9 @@ def trace_stats(ctx, traces):
             ev = e["ev"]
             if ev == "Init":
                 last_g = {}
+            elif ev == "Restore":
+                if e.get("ok"):
+                    ctx.count("restores_ok")
             elif ev == "PP":
                 ctx.count("pp_requests")
                 if e["res"]["snap"]:
